@@ -5,6 +5,7 @@ import (
 	"fmt"
 	"io"
 	"sort"
+	"strings"
 	"sync"
 	"time"
 
@@ -141,7 +142,7 @@ func buildC12On(tier string, proto string) sim.Scenario {
 				}
 			case k <= 6:
 				tr := transports[tp.Choose(len(transports))]
-				track := []string{"streamid=0", "streamid=0", "streamid=1", "streamid=9"}[tp.Choose(4)]
+				track := []string{"streamid=0", "streamid=0", "streamid=1", "streamid=9", "streamid=0", "streamid=1", ""}[tp.Choose(7)] // "": the aggregate URL, not a track
 				lo := 0
 				if track == "streamid=1" {
 					lo = 2
@@ -177,12 +178,18 @@ func buildC12On(tier string, proto string) sim.Scenario {
 		if tp.OneIn(4) {
 			cutAt = tp.Choose(len(script))
 		}
+		absControl := tp.OneIn(3)
 		pipeline := tp.OneIn(3)
 		chunked := tp.Bool()
 		w.Logf("c12 pre=%d n=%d cutAt=%d pipeline=%v chunked=%v", pre, len(script), cutAt, pipeline, chunked)
 
 		// live stream with a publisher
-		stream = media.NewStream(c12Live, sdpH264AAC)
+		liveSDP := sdpH264AAC
+		if absControl { // a=control given as absolute URLs, as many cameras do
+			liveSDP = strings.Replace(liveSDP, "a=control:streamid=", "a=control:rtsp://10.9.0.1:554"+c12Live+"/streamid=", -1)
+			w.Probe("c12.absolute-control-urls")
+		}
+		stream = media.NewStream(c12Live, liveSDP)
 		media.Regist(stream)
 		var pwg sync.WaitGroup
 		pwg.Add(1)
@@ -278,7 +285,7 @@ func buildC12On(tier string, proto string) sim.Scenario {
 					if state == "playing" {
 						return "must455"
 					}
-					if !described || r.track == "streamid=9" || r.tkind != "tcp" {
+					if !described || r.track == "streamid=9" || r.track == "" || r.tkind != "tcp" {
 						return "not2xx"
 					}
 					return "must2xx"
@@ -328,7 +335,7 @@ func buildC12On(tier string, proto string) sim.Scenario {
 					if r.path != want {
 						return "any"
 					}
-					if r.track == "streamid=9" || r.tkind == "bad" {
+					if r.track == "streamid=9" || r.track == "" || r.tkind == "bad" {
 						return "not2xx"
 					}
 					if mode == "play" {
@@ -423,7 +430,7 @@ func buildC12On(tier string, proto string) sim.Scenario {
 
 		url := func(r c12Req) string {
 			u := base + r.path
-			if r.method == "SETUP" {
+			if r.method == "SETUP" && r.track != "" {
 				u += "/" + r.track
 			}
 			return u
